@@ -2,8 +2,8 @@
    The run-length refinement  dense (add s ..) = dense_add (dense s) ..  is checked on every correspondence
    case by comparing the model's own dense view with the per-pixel specification (Model/RunC03.v) and is a
    theorem below (C03_add_refines_dense and its lifts to a scanline and a destination row). *)
-From Coq Require Import ZArith List.
-From TS Require Import Model.AlphaRuns Proofs.AlphaProofs Proofs.AlphaRefine Proofs.AlphaRefine2.
+From Coq Require Import ZArith Bool List.
+From TS Require Import Model.AlphaRuns Proofs.AlphaProofs Proofs.AlphaRefine Proofs.AlphaRefine2 Proofs.AlphaSpans.
 Import ListNotations.
 Local Open Scope Z_scope.
 
@@ -50,13 +50,15 @@ Proof. exact break_run_preserves_dense. Qed.
    offset the caller passes (a run boundary), a span starting at or after that offset and fitting in the row:
    - add panics (model: None) exactly when the per-pixel specification overflows;
    - otherwise the structure stays well-formed, its per-pixel view is dense_add of the old one, the offset it
-     returns is again a run boundary that is not before the caller's prefix and not after the stop pixel. *)
+     returns is again a run boundary that is not before the caller's prefix and not after the stop pixel (the caller's own
+     offset when the span lies inside one pixel). *)
 Theorem C03_add_refines_dense :
   forall s pre rest x sa mid ea maxv,
   WFruns s (pre ++ rest) -> total pre <= x -> 0 <= mid -> (x - total pre) + flag sa + mid + flag ea <= total rest ->
   match ar_add s x sa mid ea maxv (total pre) with
   | Some (s', off') => exists pre' rest', WFruns s' (pre' ++ rest') /\ total pre' = off' /\ (exists l, pre' = pre ++ l) /\
-                        dense_add (flat (pre ++ rest)) x sa mid ea maxv = Some (flat (pre' ++ rest')) /\ off' <= x + flag sa + mid
+                        dense_add (flat (pre ++ rest)) x sa mid ea maxv = Some (flat (pre' ++ rest')) /\
+                        off' <= (if (mid =? 0) && (ea =? 0) then total pre else x + flag sa + mid)
   | None => dense_add (flat (pre ++ rest)) x sa mid ea maxv = None
   end.
 Proof. exact add_refines_dense. Qed.
@@ -77,3 +79,23 @@ Theorem C03_reset_fresh :
   forall s width, 0 < width <= 65535 -> width < Z.of_nat (length (ar_runs s)) -> length (ar_alpha s) = length (ar_runs s) ->
   exists s', ar_reset s width = Some s' /\ WFruns s' ([] ++ [(width, 0)]).
 Proof. exact reset_wf. Qed.
+
+(* from spans to alpha: a destination row of width W whose four sub-scanlines carry sorted, disjoint supersampled spans
+   (what the edge walker emits).  SuperBlitter's calls never overflow AlphaRuns, and every pixel q ends with an alpha a
+   within 1/16 of 255 * K / 16, where K is the number of its 16 sub-pixels that the spans cover; a is exactly 0 for an
+   uncovered and exactly 255 for a fully covered pixel *)
+Theorem C03_row_alpha :
+  forall W Y l0 l1 l2 l3,
+  0 < W -> 0 <= Y -> spans_ok 0 (4 * W) l0 -> spans_ok 0 (4 * W) l1 -> spans_ok 0 (4 * W) l2 -> spans_ok 0 (4 * W) l3 ->
+  exists s' d, run_subrows (ar_new W) (row_calls Y l0 l1 l2 l3) = Some s' /\ dense s' = Some d /\
+    forall q, 0 <= q < W -> exists a, getz d q = Some a /\
+      let K := covs l0 q + covs l1 q + covs l2 q + covs l3 q in
+      0 <= K <= 16 /\ 0 <= a <= 255 /\ Z.abs (16 * a - 255 * K) <= 16 /\ (K = 0 -> a = 0) /\ (K = 16 -> a = 255).
+Proof. exact row_alpha_runs. Qed.
+
+(* the call blit_h makes for a span contributes to pixel q sixteen times the sub-pixels of q it covers (max_value when it
+   covers all four) *)
+Theorem C03_contrib_blit :
+  forall x w y q, 0 <= x -> 1 <= w -> 0 <= y ->
+  contrib (blit_h_args x w y) q = if cov x w q =? 4 then maxv_of y else 16 * cov x w q.
+Proof. exact contrib_blit. Qed.
